@@ -6,8 +6,36 @@ import sys
 import time
 
 
+_ALL = []
+
+
+def _uncaught(et, ev, tb):
+    """An exception that escapes a stand-in outside a case() block: when it passes through the code under
+    test (a frame inside the lentil package) it is a failing input of the stand-in that was running - on the
+    unchanged tree the stand-ins run to completion, so the code under test now refuses, or crashes on, an input
+    it handled.  Anything else is a crash of the stand-in itself (exit status non-zero -> checker error)."""
+    import traceback
+    frames = traceback.extract_tb(tb)
+    through = [f for f in frames if '/lentil/' in f.filename.replace('\\', '/')]
+    if not _ALL or not through or not issubclass(et, Exception):
+        sys.__excepthook__(et, ev, tb)
+        sys.exit(1)
+    b = _ALL[-1]
+    b.check(False, {'exception': ('%s: %s' % (et.__name__, ev))[:300], 'raised_in': '%s:%d' % (through[-1].filename, through[-1].lineno),
+                    'stand_in_line': next((f.lineno for f in reversed(frames) if f.filename.endswith('.py') and '/native/' in f.filename), None),
+                    'note': 'uncaught exception from the code under test; later cases of this stand-in were not run'})
+    emit(list(_ALL))
+    sys.stdout.flush()
+    import os
+    os._exit(0)
+
+
+sys.excepthook = _uncaught
+
+
 class Bounded:
     def __init__(self, name, bound, clause):
+        _ALL.append(self)
         self.name = name
         self.bound = bound
         self.clause = clause
